@@ -289,9 +289,11 @@ func c04Word(c *explore.Ctx, b2 *explore.Base, sp c04Space, chain []epoch, word 
 	if h.Errs[0] != nil {
 		return chainViolation(sp.crashSpace, chain, "open", "Open of the crash image failed: "+h.Errs[0].Error())
 	}
-	if h.S.FS.Stats.NonAppendSeg > 0 && os.Getenv("VERIF_C04_NO_APPEND_CHECK") == "" {
-		ch := append(append([]epoch(nil), chain...), epoch{Word: opsJSON(word), Pos: -1, Variant: "no crash"})
-		return chainViolation(sp.crashSpace, ch, "append-offset", "after a recovery a write to a segment did not land at the end of the file: "+h.S.FS.Stats.NonAppendDesc)
+	if h.S.FS.Stats.NonAppendSeg > 0 {
+		// diagnostic only (a design that pre-allocates segment files would write inside the file legitimately): what the
+		// property asks - acknowledged writes survive the next recovery - is judged on the crash images below
+		c.Add("segment_writes_not_at_eof_after_recovery", 1)
+		c.Note("segment_write_not_at_eof_example", h.S.FS.Stats.NonAppendDesc)
 	}
 	for op := checkFrom; op < len(h.Bounds)-1; op++ {
 		if h.Errs[op] != nil {
@@ -328,7 +330,7 @@ func init() {
 		Prop:  "C04",
 		Level: "fault_enumeration",
 		Rule: "epoch chains: every distinct crash image of every word of length <= d1 (C03 alphabet; bases T (torn tails), S2, E) is (a) recovered, and every crash image of the recovering Open's own op log recovered again (same contents); " +
-			"(b) used as start state for every word of length <= d2 with every crash image inside each operation, reopened and compared with the cumulative acknowledged state +/- the in-flight op; after every recovery segment in-memory size == file length and every segment write is an append at EOF; thorough: a third epoch; distinct_nontrivial = distinct disk images recovered; (c) fault layer: for every operation of {Put(a),Put(b),Delete(a),Compact,Sync,Close} after every 0-/1-letter prefix a transient I/O error is injected at EACH mutating file-system call of the operation, Close of a written handle included (a data write writes nothing, or - second pass, segment padded so that the next record straddles a sector boundary - everything before the last 512-byte-aligned offset inside it); then the process dies, or does two more acknowledged Puts and dies: the next Open (a recovery) must succeed and show the acknowledged state with the failed operation applied or not (the continuation 'closes cleanly and exits' is judged by C02)",
+			"(b) used as start state for every word of length <= d2 with every crash image inside each operation, reopened and compared with the cumulative acknowledged state +/- the in-flight op; segment in-memory size vs file length and non-appending segment writes after a recovery are recorded as diagnostics; thorough: a third epoch; distinct_nontrivial = distinct disk images recovered; (c) fault layer: for every operation of {Put(a),Put(b),Delete(a),Compact,Sync,Close} after every 0-/1-letter prefix a transient I/O error is injected at EACH mutating file-system call of the operation, Close of a written handle included (a data write writes nothing, or - second pass, segment padded so that the next record straddles a sector boundary - everything before the last 512-byte-aligned offset inside it); then the process dies, or does two more acknowledged Puts and dies: the next Open (a recovery) must succeed and show the acknowledged state with the failed operation applied or not (the continuation 'closes cleanly and exits' is judged by C02)",
 		Assumptions:   []string{"process-crash model of the property", "d1/d2/d3 as listed in the notes; recovery results memoised per image content hash"},
 		QuickBudget:   100 * time.Second,
 		ThorBudget:    25 * time.Minute,
